@@ -350,23 +350,9 @@ func (x *exec) Main() {
 	for _, o := range pre {
 		x.do(mq, 0, o)
 	}
-	// 3. producers
-	done := make([]chan struct{}, len(threads))
-	for t := range threads {
-		t := t
-		done[t] = vsched.Reg(make(chan struct{}))
-		vsched.GoNamed(fmt.Sprintf("producer%d", t+1), true, func() {
-			for _, o := range threads[t] {
-				x.do(mq, t+1, o)
-			}
-			vsched.Close(done[t])
-		})
-	}
-	// 4. finisher: when every producer is done, let the queue drain (debounce timers), then stop it
-	vsched.GoNamed("finisher", true, func() {
-		for _, d := range done {
-			vsched.Recv((<-chan struct{})(d))
-		}
+	// 3. producers; the last one to finish lets the queue drain (debounce timers) and then stops it
+	left := len(threads)
+	finish := func() {
 		for i := 0; ; i++ {
 			vsched.WaitIdle()
 			if !mq.VerifBusy() {
@@ -383,7 +369,22 @@ func (x *exec) Main() {
 		x.finished = true
 		x.elapsed = vsched.Now().Sub(time.Unix(1_700_000_000, 0))
 		mq.Shutdown()
-	})
+	}
+	for t := range threads {
+		t := t
+		vsched.GoNamed(fmt.Sprintf("producer%d", t+1), true, func() {
+			for _, o := range threads[t] {
+				x.do(mq, t+1, o)
+			}
+			left--
+			if left == 0 {
+				finish()
+			}
+		})
+	}
+	if len(threads) == 0 {
+		finish()
+	}
 }
 
 func (x *exec) AtEnd(*vsched.Result) {}
